@@ -260,7 +260,9 @@ func (vc *VC) lenOf(st *State, x Term, t types.Type) Term {
 		return Term{S: "(s_len " + x.S + ")", Sort: SInt, T: types.Typ[types.Int]}
 	case *types.Map:
 		_, _, lk := vc.mapKeys(u)
-		return Term{S: mkIte("(= "+x.S+" 0)", "0", sel(vc.heapGet(st, lk).S, x.S)), Sort: SInt, T: types.Typ[types.Int]}
+		ln := sel(vc.heapGet(st, lk).S, x.S)
+		vc.emit("(assert (>= " + ln + " 0))") // a map's length is the size of its key set
+		return Term{S: mkIte("(= "+x.S+" 0)", "0", ln), Sort: SInt, T: types.Typ[types.Int]}
 	case *types.Array:
 		return Term{S: fmt.Sprint(u.Len()), Sort: SInt, T: types.Typ[types.Int]}
 	case *types.Pointer:
@@ -638,15 +640,23 @@ func (vc *VC) evalModTarget(env *Env, e CExpr, src string) []modTarget {
 			return []modTarget{{key: key, ref: "(sl.base " + x.S + ")", isMem: true, lo: "(sl.off " + x.S + ")", hi: "(+ (sl.off " + x.S + ") (sl.cap " + x.S + "))"}}
 		case "allmem":
 			// allmem(byte), allmem(*Node)
-			name := ""
-			switch a := t.Args[0].(type) {
-			case CIdent:
-				name = a.Name
-			case CUn:
-				if id, ok := a.X.(CIdent); ok && a.Op == "*" {
-					name = "*" + id.Name
+			var tyName func(e CExpr) string
+			tyName = func(e CExpr) string {
+				switch a := e.(type) {
+				case CIdent:
+					return a.Name
+				case CField:
+					if id, ok := a.X.(CIdent); ok {
+						return id.Name + "." + a.Name
+					}
+				case CUn:
+					if a.Op == "*" {
+						return "*" + tyName(a.X)
+					}
 				}
+				return ""
 			}
+			name := tyName(t.Args[0])
 			tt := env.lookupType(name)
 			if tt == nil {
 				vc.unsup("modifies %s: unknown type", src)
